@@ -12,11 +12,13 @@ TEXTS = {
                      'adversarial leaf alphabet x a grid of (width, ribbon, indent) x sort_dict_keys, plus deep nestings and seeded random trees. '
                      'The printers are not yet under proved contracts, so nothing is claimed beyond the bound.',
                 note='CPython eval/ast as oracle; domain bounds are written to the evidence.'),
-    'C02': dict(category='other', engine='bounded', technique=_BOUNDED,
-                text='Bounded: every str/bytes over a 10-symbol adversarial alphabet up to length 4 (5 thorough) in 6 placements x widths, '
-                     'plus str_to_lines and escape_str_for_quote called directly on all strings up to length 5 (6): literals concatenate to the '
-                     'value, no empty piece, b prefix, termination under an alarm.',
-                note='CPython tokenize/ast as oracle; bounds in the evidence.'),
+    'C02': dict(category='other', engine='pyvc+bounded', technique=_PYVC + '; ' + _BOUNDED,
+                text='Proved for ALL strings and every max_len > 0 (780 obligations over z3 String): the pieces str_to_lines yields concatenate to '
+                     'the input, none is empty, and the loop terminates (lexicographic measure); split_at cuts without losing a character. '
+                     'Bounded: escaping against the CPython lexer, quote choice, placement in 6 contexts x widths for every str/bytes over a '
+                     '10-symbol alphabet up to length 4 (5), str_to_lines / escape_str_for_quote directly up to length 5 (6).',
+                note=_ENC + 'assumed: re.Pattern.split returns >= 1 pieces whose concatenation is the input; escaped_len >= 0; the '
+                     'evaluator that calls str_to_lines (floor of 10 columns) and escaping are decided by the bounded stand-in only.'),
     'C03': dict(category='other', engine='bounded', technique=_BOUNDED,
                 text='Bounded: ast.dump of the output equal across 77-117 configurations for the C01 corpus, commented values, stdlib '
                      'instances, subclass instances and a pretty_call user type; every line indented by a multiple of indent.',
@@ -60,8 +62,8 @@ TEXTS = {
                      'placeholder shapes, identity above the cut and beyond the height. Two known findings (atoms below the cut, str key at the cut).',
                 note='CPython ast as oracle.'),
     'C12': dict(category='other', engine='pyvc+bounded', technique=_PYVC + ' for termination measures; ' + _BOUNDED + ' for the growth law',
-                text='Proved: termination measures of the fitting predicates and of best_layout (stack_size decreases on every iteration, given '
-                     'size-bounded contextual functions). Bounded: interpreter-step counts (sys.monitoring) on 23 input families at n,2n,4n,8n '
+                text='Proved: termination measures of the fitting predicates, of best_layout (stack_size decreases on every iteration, given '
+                     'size-bounded contextual functions) and of str_to_lines (all strings, all max_len > 0). Bounded: interpreter-step counts (sys.monitoring) on 23 input families at n,2n,4n,8n '
                      'with growth factor <= 6. Known finding: commented dict nesting is exponential.',
                 note=_ENC + 'a contract cannot state a complexity class: the growth law is monitored only.'),
     'C13': dict(category='other', engine='pyvc+bounded', technique=_PYVC + '; ' + _BOUNDED,
